@@ -361,6 +361,7 @@ func (node *Node) getRightNode(t *Tree) *Node {
 
 // NOTE: overwrites node TODO: optimize balance & rotate
 func (node *Node) rotateRight(t *Tree) *Node {
+	verifRotate(1)
 	node = node._copy()
 	l := node.getLeftNode(t)
 	removeOrphan(t, l)
@@ -378,6 +379,7 @@ func (node *Node) rotateRight(t *Tree) *Node {
 
 // NOTE: overwrites node TODO: optimize balance & rotate
 func (node *Node) rotateLeft(t *Tree) *Node {
+	verifRotate(0)
 	node = node._copy()
 	r := node.getRightNode(t)
 	removeOrphan(t, r)
